@@ -261,6 +261,23 @@ PROPS['C13'] = {
     'not_decided': ['multi-node histories (frames interleaved with time steps and disconnects across 3-4 nodes): only the per-operation contracts are proved; their composition over histories is by induction on the table view, not machine-checked at node level'],
 }
 
+KEYS_DRV = {'file': 'native/keys_roundtrip.rs', 'attach': 'src/crypto/common.rs', 'test': 'printed_keys_are_accepted'}
+PROPS['C18'] = {
+    'level': 'proof',
+    'level_text': 'Proof (Verus, unbounded lengths) that the text codec is value-exact: base62_add_mult_16, to_base62 and from_base62 verbatim against positional-value specs (text value == big-endian byte value, canonical forms, first bad character), and that Crypto::{decode_key, parse_public_key, parse_private_key, parse_keypair} accept the text of EVERY 32-byte string (also with leading zero bytes) and hand exactly those bytes to the key constructor. ring key objects and PBKDF2 are uninterpreted functions.',
+    'verus': [{'unit': 'base62'}],
+    'native_search': {r'base62::Crypto::.*': KEYS_DRV},
+    'trusted': [
+        'ring: Ed25519KeyPair::from_seed_unchecked / from_seed_and_public_key as uninterpreted functions of the seed (accept exactly 32-byte seeds; public key is a function of the seed)',
+        'std contracts written in the unit: <[T]>::reverse, <[T]>::clone_from_slice, String::with_capacity; R5 pinned statement `buf[0..buflen].reverse();`',
+        'str::chars / String::push / Vec specs of vstd',
+    ],
+    'not_decided': [
+        'generate_keypair / keypair_from_password determinism (same PBKDF2 term) - reading only: both call pbkdf2::derive(PBKDF2_HMAC_SHA256, 4096, SALT, password) and Ed25519KeyPair::from_seed_unchecked; ring/pbkdf2 calls are not typed by Verus',
+        'that nodes sharing a password complete a handshake (C01/C05)',
+    ],
+}
+
 NOT_APPLICABLE = {
     'C01': 'needs Ed25519 unforgeability plus InitMsg::read_from / InitState::handle_init, which neither back end reaches (150-line TLV parser over Cursor/SmallVec; ring key objects); no contract within reach expresses it',
     'C05': 'all-schedules agreement and recovery of two retransmitting state machines plus a liveness bound: a protocol-level joint invariant and liveness, outside per-function contracts',
@@ -270,6 +287,5 @@ NOT_APPLICABLE = {
     'C14': 'convergence of N nodes is liveness over multi-node histories; the safety half lives in handle_init/connect (out of reach of both back ends)',
     'C15': 'pending',
     'C17': 'pending',
-    'C18': 'pending',
     'C19': 'pending',
 }
